@@ -3,7 +3,8 @@
 (* chunking.  Each line e is one chunking: e.t = "m": bit i-1 of e.m set <=> a read boundary after byte i;       *)
 (* e.t = "k": e.k = list of read sizes.  Logged observations: e.o = ids (index into TR.tbl) of the messages       *)
 (* handed to the message processor, in order; e.s = states of the configured switches afterwards; e.c / e.ls =    *)
-(* bytes carried over / lost-synch flag; e.dd = the decoder raised (reader task dead).  A line is accepted iff   *)
+(* bytes carried over / lost-synch flag; e.f = PKONE in-flight counter; e.dd = the decoder raised (reader task   *)
+(* dead).  A line is accepted iff                                                                                  *)
 (* the observations equal the model's decode of the same chunking AND the model's whole-stream decode.            *)
 EXTENDS SerialFraming, TraceIO
 VARIABLES tid, l
@@ -29,7 +30,7 @@ Step(e) ==
     e.t \in {"m", "k"} /\          \* a {t: "crash"} line (the harness itself failed) is never accepted
     LET d == IF e.t = "m" THEN FeedMask(InitDec(cfg), e.m, 1, 1) ELSE FeedSizes(InitDec(cfg), e.k, 0)
         w == Whole(Len(wire))
-    IN /\ e.o = OutIds(d) /\ e.s = Digest(cfg, d.sw) /\ e.dd = d.dead
+    IN /\ e.o = OutIds(d) /\ e.s = Digest(cfg, d.sw) /\ e.dd = d.dead /\ (d.dead \/ e.f = d.infl)
        /\ NormCarry(cfg, [d EXCEPT !.buf = e.c, !.lost = e.ls]) = NormCarry(cfg, d)
        /\ Norm(cfg, d) = Norm(cfg, w)              \* ChunkInvariance on this very stream
        /\ dec' = d
